@@ -10,6 +10,8 @@ Streams
   xml     : whole images: to_xml() -> (optional foreign-writer rewrite: BigEndian, pretty printing, CDATA) ->
             GiftiImageParser(buffer_size=...) ; the Lean event machine is driven with the handler calls expat made
   edge    : zero-size arrays (B64BIN: open finding), malformed payloads
+  wevents : the writer model: Lean `imgEvents` of an image description == the handler calls expat really makes on
+            to_xml() of that image (adjacent character-data calls merged) - ties image_xml_roundtrip to the code
   xml-foreign : valid documents after random structural edits (attributes/elements removed, duplicated, moved, unknown
             elements, stray text) - correspondence only: parser event machine incl. its error paths vs the model
 """
@@ -48,18 +50,29 @@ THEOREMS = [
     'Nb.C17.elem_roundtrip',
     'Nb.C17.buffer_roundtrip',
     'Nb.C17.order_roundtrip',
-    'Nb.C17.data_block_roundtrip',
-    'Nb.C17.data_block_roundtrip_gifti',
-    'Nb.C17.data_block_roundtrip_any_memory_order',
+    'Nb.C17.base64_block_roundtrip',
+    'Nb.C17.base64_block_roundtrip_gifti',
+    'Nb.C17.base64_block_roundtrip_any_memory_order',
     'Nb.C17.writer_bytes_memory_order_independent',
     'Nb.C17.codes_pinned',
+    'Nb.C17.intent_forms_agree',
+    'Nb.C17.intent_aliases_pinned',
+    'Nb.C17.intent_arg_methods',
+    'Nb.C17.agg_code_zero_filters',
+    'Nb.C17.agg_tuple_args',
+    'Nb.C17.image_xml_roundtrip',
+    'Nb.C17.image_data_base64',
+    'Nb.C17.writer_names_parse_back',
+    'Nb.C17.image_xml_roundtrip_gifti',
 ]
 ASSUMPTIONS = [
     'hand-written Lean model of GiftiImage container methods, GiftiImageParser handlers/flush_chardata and '
     'read_data_block (Model/C17.lean), tied to the code by the differential correspondence run on every case',
     'expat: only the handler-call sequence it delivers is modelled (recorded from the real parser in each case); '
     'contract: the character data of a text node arrives as >=1 chunks whose concatenation is the text',
-    'ElementTree escaping/serialisation is external (round trip checked by the oracle only)',
+    'ElementTree escaping/serialisation + expat are external; CONTRACT used by image_xml_roundtrip: parsing the bytes '
+    'to_xml() produced delivers the writer\'s element tree in document order (Model/C17 imgEvents) up to chunking of '
+    'character data; the contract itself is exercised on every wevents case (model events == recorded handler calls)',
     'base64 and zlib are external codecs with contract decode(encode(b)) = b (theorem hypotheses); the driver '
     'uses an executable base64 decoder and a zlib answer table computed by Python zlib for the case',
     'ASCII number printing (%d, %10.6f) and parsing (np.loadtxt) are external: the driver receives the '
@@ -68,11 +81,14 @@ ASSUMPTIONS = [
     'validated against NumPy on every block/xml case',
     'Recoder tables enter through Generated/C17Codes.lean, regenerated from the working tree on every run',
 ]
-RULE = ('hist: every intent list over 3 codes (incl. TIME_SERIES) up to length 5 (quick) / 6 (thorough) x every single '
-        'mutating op (remove by each intent, pop at every index in [-n-1,n]) with all selections/aggregations '
-        'observed before and after, plus random histories with re-added objects; block: dtype{u1,i4,f4} x 1-3 dims '
+RULE = ('hist: every intent list over {0 (NONE, the falsy default), POINTSET, TIME_SERIES} up to length 5 (quick) / 6 '
+        '(thorough) and over 4 codes one shorter x every single mutating op (remove by each intent, pop at every index in '
+        '[-n-1,n]) with all selections/aggregations observed before and after; every intent is asked for BY INTEGER CODE '
+        '(0 included), NumPy integer, niistring and label, in single and tuple form (None elements, repeats), arrays of '
+        'intent 0 built with and without the constructor default, unknown arguments (KeyError, image untouched); plus '
+        'random histories with re-added objects; wevents: random images, writer model vs recorded handler calls; block: dtype{u1,i4,f4} x 1-3 dims '
         'x {ASCII,B64BIN,B64GZ} x {LE,BE} x {row,col}; wblock: in-memory byte order {native,swapped} x memory layout {C,F}; xml: 0-4 arrays x encodings x orders x declared endian x '
-        'buffer sizes {1,7,64,default} x in-memory byte order {native,swapped} x {one hop, load->re-save->load} x metadata/labels with XML-special and non-ASCII text x coordsys. '
+        'buffer sizes {default, every size 1..16, 17..1000} (grid: 1,7,64,default) x texts with embedded newlines x in-memory byte order {native,swapped} x {one hop, load->re-save->load} x metadata/labels with XML-special and non-ASCII text x coordsys. '
         'A case is non-trivial when it has >=1 array/op; distinct by its full JSON description.')
 
 PENDING_FINDINGS = [
